@@ -182,7 +182,8 @@ package keeper
 //@   requires bigval[msg.Value()] >= 0
 //@   requires londonActive(cfg.ChainConfig, ctx.BlockHeight()) ==> cfg.BaseFee != nil
 //@   requires txConfig.TxType != nil ==> *txConfig.TxType <= 2
-//@   modifies wVersion[layer(ctx)], bankBal[layer(ctx)], bankSupply[layer(ctx)], acctSeq[layer(ctx)], acctExists[layer(ctx)], authVersion[layer(ctx)], trGas[layer(ctx)], trLogs[layer(ctx)], trReceipt[layer(ctx)], trHasReceipt[layer(ctx)], elems(type(common.Address))
+//@   modifies when commit : wVersion[layer(ctx)], bankBal[layer(ctx)], bankSupply[layer(ctx)], acctSeq[layer(ctx)], acctExists[layer(ctx)], authVersion[layer(ctx)]
+//@   modifies trGas[layer(ctx)], trLogs[layer(ctx)], trReceipt[layer(ctx)], trHasReceipt[layer(ctx)], elems(type(common.Address))
 //@   ensures[C05.gas_used_le_limit] err == nil ==> (res != nil && res.GasUsed <= msg.Gas())
 //@   ensures[C06.nonce_advanced] (err == nil && commit && !msg.IsFake()) ==> (old(acctSeq[layer(ctx)][addrBytes(msg.From())]) == msg.Nonce() && acctSeq[layer(ctx)][addrBytes(msg.From())] == msg.Nonce() + 1 && msg.Nonce() + 1 < pow2(64))
 //@   ensures[C04.supply_evm_denom] (err == nil && commit) ==> bankSupply[layer(ctx)][evmDenomOf[layer(ctx)]] <= old(bankSupply[layer(ctx)][evmDenomOf[layer(ctx)]]) + (trFlagPaid[layer(ctx)] ? (msg.Gas() - res.GasUsed) * bigval[msg.GasPrice()] : 0)
@@ -317,3 +318,39 @@ package keeper
 //@   panics never
 //@ loop 1
 //@   invariant -1 <= rangeindex && rangeindex < len(logs) && (forall j int :: (0 <= j && j <= rangeindex) ==> logs[j].Index == u64add(startLogIndex, j))
+
+// ---------------------------------------------------------------------------------------------
+// grpc_query.go — eth_call / eth_estimateGas (C08): nothing persistent changes, whatever the request
+// ---------------------------------------------------------------------------------------------
+//@ func (k *Keeper) NewTxConfigFromMessage(ctx sdk.Context, msg core.Message) evmvm.TxConfig
+//@   requires k != nil
+//@   modifies nothing
+//@   ensures[C13.tx_index] result.TxIndex == max(1, trCount[layer(ctx)]) - 1
+//@   ensures msg != nil ==> (result.TxType != nil && *result.TxType <= 2)
+//@   ensures msg == nil ==> result.TxType == nil
+//@   panics never
+
+//@ func (k *Keeper) GetNonce(ctx sdk.Context, addr common.Address) uint64
+//@   requires k != nil
+//@   modifies nothing
+//@   ensures[C06.nonce_view] result == acctSeq[layer(ctx)][addrBytes(addr)]
+//@   panics never
+
+// EthCall: the persistent state seen through the query context is exactly what it was (only block-scoped transient
+// bookkeeping of that context is written), for every request.
+//@ func (k Keeper) EthCall(c context.Context, req *evmtypes.EthCallRequest) (res *evmtypes.MsgEthereumTxResponse, err error)
+//@   requires typeof(c) == type(sdk.Context)
+//@   modifies trGas[layer(sdk.UnwrapSDKContext(c))], trLogs[layer(sdk.UnwrapSDKContext(c))], trReceipt[layer(sdk.UnwrapSDKContext(c))], trHasReceipt[layer(sdk.UnwrapSDKContext(c))], elems(type(common.Address))
+//@   ensures[C08.eth_call_no_persistent_change] wVersion[layer(sdk.UnwrapSDKContext(c))] == old(wVersion[layer(sdk.UnwrapSDKContext(c))]) && bankBal[layer(sdk.UnwrapSDKContext(c))] == old(bankBal[layer(sdk.UnwrapSDKContext(c))]) && bankSupply[layer(sdk.UnwrapSDKContext(c))] == old(bankSupply[layer(sdk.UnwrapSDKContext(c))]) && acctSeq[layer(sdk.UnwrapSDKContext(c))] == old(acctSeq[layer(sdk.UnwrapSDKContext(c))]) && acctExists[layer(sdk.UnwrapSDKContext(c))] == old(acctExists[layer(sdk.UnwrapSDKContext(c))])
+//@   ensures[C08.eth_call_nil_request] req == nil ==> err != nil
+//@   panics any
+
+// EstimateGas: same frame; and a successful estimate lies within (TxGas-1, cap].
+//@ func (k Keeper) EstimateGas(c context.Context, req *evmtypes.EthCallRequest) (res *evmtypes.EstimateGasResponse, err error)
+//@   requires typeof(c) == type(sdk.Context)
+//@   requires req != nil ==> req.GasCap < pow2(63)
+//@   modifies trGas, trLogs, trReceipt, trHasReceipt, elems(type(common.Address))
+//@   at call BinSearch@1 invariant msg.gasPrice != nil && msg.gasFeeCap != nil && msg.gasTipCap != nil && msg.amount != nil && bigval[msg.amount] >= 0
+//@   ensures[C08.estimate_no_persistent_change] wVersion[layer(sdk.UnwrapSDKContext(c))] == old(wVersion[layer(sdk.UnwrapSDKContext(c))]) && bankBal[layer(sdk.UnwrapSDKContext(c))] == old(bankBal[layer(sdk.UnwrapSDKContext(c))]) && bankSupply[layer(sdk.UnwrapSDKContext(c))] == old(bankSupply[layer(sdk.UnwrapSDKContext(c))]) && acctSeq[layer(sdk.UnwrapSDKContext(c))] == old(acctSeq[layer(sdk.UnwrapSDKContext(c))]) && acctExists[layer(sdk.UnwrapSDKContext(c))] == old(acctExists[layer(sdk.UnwrapSDKContext(c))])
+//@   ensures[C08.estimate_in_range] err == nil ==> (res != nil && res.Gas <= req.GasCap)
+//@   panics any
